@@ -1,5 +1,6 @@
 import Tahoe.StorageClient.Lemmas
 import Tahoe.StorageClient.Upload
+import Tahoe.StorageClient.Permute
 import Tahoe.Props.C33
 /-!
 C32 — Servers are ordered consistently and upload permission is enforced.
@@ -14,7 +15,7 @@ the code by `harness/props/c32.py`.
 | clause of C32 | proved for the model by |
 |---|---|
 | for a given storage index and set of connected servers every client computes the same order | `order_is_function_of_set` (any enumeration / insertion history of the same set, distinct sort keys), `preferred_is_a_set` (order and repetitions in `peers.preferred` are irrelevant) |
-| preferred servers first, then by the hash of storage index and server seed | `preferred_first` (both halves).  SHA-1 itself is not modelled: the digest is an input, computed by hashlib in the harness — correspondence only |
+| preferred servers first, then by the hash of storage index and server seed | `preferred_first` (both halves, digest as input), `ordered_by_sha1_of_psi_and_seed` and `order_is_function_of_psi_and_seeds` (digest computed: SHA-1 of `Tahoe/Base/Sha256.lean` on storage index + seed, run by the driver op `psib` and compared with the code; that Python's lexicographic order on equal-length digests is the order of the big-endian numbers is assumed) |
 | with grid-manager keys configured, uploads are only directed to servers that currently hold a valid certificate | `upload_only_permitted` (result = exactly the connected, permitted servers), `upload_filter_applies_to_preferred` (no exemption for preferred servers, seed C32-c), `upload_candidates_hold_valid_certificate_now` and `currently_valid_server_is_offered` (end to end over certificates, keys and the current time through the C33 verifier; the list is a function of the current time only — seeds C32-a, C33-c), `publish_goal_only_permitted`, `publish_new_shares_only_permitted` (mutable publish, seed C32-b) |
 | (histories) after any sequence of announcements and re-announcements the upload set follows each server's latest announcement | `broker_holds_latest_announcement`, `upload_set_depends_only_on_latest`, `upload_candidates_follow_latest_announcement` (seed C32-e); tied by the `hist` lines of `harness/props/c32.py` through the real `_got_announcement` |
 | quantifier: random server sets, seeds, preferred lists, storage indexes, certificate sets and clock values | theorems hold for all lists / keys / times; the tie to the code is `harness/props/c32.py` (histories on long-lived brokers with a stepping clock) and, for `serversAt`, `harness/props/c33.py` (`offer` lines) |
@@ -183,6 +184,43 @@ theorem publish_new_shares_only_permitted (total : Nat) (goal : List (Nat × Nat
 /-- server 2 holds share 0 but is no longer permitted: the homeless shares 1, 2 go to 1 and 4 -/
 example : updateGoal 3 [(2, 0)] []
     [⟨1, true, true, 0⟩, ⟨2, true, false, 0⟩, ⟨4, true, true, 0⟩] = some [(2, 0), (1, 1), (4, 2)] := by decide
+
+/-- "…then by the hash of the storage index and each server's seed", with the hash computed: every
+    server in the result comes from an input server, its sort value is SHA-1(storage index + seed)
+    of that server, no non-preferred server precedes a preferred one, and within a class these
+    SHA-1 values are non-decreasing. -/
+theorem ordered_by_sha1_of_psi_and_seed (preferred : List Nat) (forUpload : Bool) (psi : List UInt8)
+    (l : List RawServer) :
+    (∀ s ∈ getServersForPsiBytes preferred forUpload psi l,
+      ∃ r ∈ l, r.id = s.id ∧ s.hash = beNat (Tahoe.Base.Sha256.sha1 (psi ++ r.seed))) ∧
+    (getServersForPsiBytes preferred forUpload psi l).Pairwise (fun a b =>
+      (b.id ∈ preferred → a.id ∈ preferred) ∧
+      ((a.id ∈ preferred ↔ b.id ∈ preferred) → a.hash ≤ b.hash)) := by
+  refine ⟨fun s hs => ?_, preferred_first preferred forUpload _⟩
+  have hmem := (perm_getServersForPsi preferred forUpload _).subset hs
+  obtain ⟨r, hr, rfl⟩ := List.mem_map.mp (List.mem_filter.mp hmem).1
+  exact ⟨r, hr, rfl, rfl⟩
+
+/- non-vacuity, evaluated (SHA-1 runs on byte arrays, so this is a compiled `#guard`, a test, not a
+   kernel proof): three seeds under the all-zero storage index, in two enumerations -/
+#guard (getServersForPsiBytes [] false (List.replicate 16 0)
+          [⟨0, true, true, [0xaa]⟩, ⟨1, true, true, [0xbb]⟩, ⟨2, true, true, [0xcc]⟩]).map (·.id) = [2, 0, 1]
+#guard (getServersForPsiBytes [1] false (List.replicate 16 0)
+          [⟨2, true, true, [0xcc]⟩, ⟨1, true, true, [0xbb]⟩, ⟨0, true, true, [0xaa]⟩]).map (·.id) = [1, 2, 0]
+
+/-- Every client computes the same order from the same storage index, seeds and preferred set: any
+    two enumerations of the same servers (pairwise distinct sort keys) give equal results. -/
+theorem order_is_function_of_psi_and_seeds (preferred : List Nat) (forUpload : Bool) (psi : List UInt8)
+    (l₁ l₂ : List RawServer) (hperm : l₁.Perm l₂)
+    (hdist : ∀ a ∈ l₁, ∀ b ∈ l₁,
+      sortKey preferred (cook psi a) = sortKey preferred (cook psi b) → cook psi a = cook psi b) :
+    getServersForPsiBytes preferred forUpload psi l₁ = getServersForPsiBytes preferred forUpload psi l₂ := by
+  unfold getServersForPsiBytes
+  refine order_is_function_of_set preferred forUpload _ _ (hperm.map _) ?_
+  intro a ha b hb hab
+  obtain ⟨ra, hra, rfl⟩ := List.mem_map.mp ha
+  obtain ⟨rb, hrb, rfl⟩ := List.mem_map.mp hb
+  exact hdist ra hra rb hrb hab
 
 section
 open Tahoe.GridManager
